@@ -536,6 +536,11 @@ Value Search::search(Position& position, Depth depth, Value alpha, Value beta,
         if (doFutilityPruning && moveIsQuiet
                 && !position.move_gives_check(move))
         {
+            // a pruned move is assumed to stay below alpha; keep that bound so a node
+            // whose moves are all pruned does not return -infinity (a false mate score)
+            bestValue = std::max(bestValue,
+                                 info->_static_eval + (depth == 1 ? FUTILITY_DEPTH_1_MARGIN
+                                                                  : FUTILITY_DEPTH_2_MARGIN));
             continue;
         }
 
